@@ -109,11 +109,14 @@ Record sstate := {
   authlog : list (string * string)       (* ghost: (session id, user) of every successful password authentication *)
 }.
 
+(* the store-backed collections with a listing handler (GET /users/ etc.) *)
+Inductive coll := CUsers | CServices | CShortcuts | CSessions.
+
 Inductive op :=
 | PutUser (n : string) (pw : option string) (pr : profile)
 | DelUser (n : string)
 | GetUser (n : string)
-| ListUsers
+| ListKeys (cl : coll)
 | PutService (id : string) (md : spmeta)
 | DelService (id : string)
 | PutShortcut (n : string) (sp : string)
@@ -265,9 +268,16 @@ Definition get_user (s : sstate) (n : string) (fp : faultplan) : sstate * list r
   | _ => (s, [rerr 500], fp1)
   end.
 
-Definition list_users (s : sstate) (fp : faultplan) : sstate * list reply * faultplan :=
+Definition list_keys (s : sstate) (cl : coll) (fp : faultplan) : sstate * list reply * faultplan :=
   let '(ok, fp1) := store_mut fp in
-  if ok then (s, [{| r_status := 200; r_body := BNames (akeys (users s)); r_cookie := None |}], fp1)
+  if ok then (s, [{| r_status := 200;
+                     r_body := BNames (match cl with
+                                       | CUsers => akeys (users s)
+                                       | CServices => akeys (services s)
+                                       | CShortcuts => akeys (shortcuts s)
+                                       | CSessions => akeys (sessions s)
+                                       end);
+                     r_cookie := None |}], fp1)
   else (s, [rerr 500], fp1).
 
 (* service.go *)
@@ -326,7 +336,7 @@ Definition step (s : sstate) (o : op) (fp : faultplan) : sstate * list reply * f
   | PutUser n pw pr => put_user s n pw pr fp
   | DelUser n => del_user s n fp
   | GetUser n => get_user s n fp
-  | ListUsers => list_users s fp
+  | ListKeys cl => list_keys s cl fp
   | PutService id md => put_service s id md fp
   | DelService id => del_service s id fp
   | PutShortcut n sp => put_shortcut s n sp fp
@@ -459,7 +469,7 @@ Arguments login {H} verify s c fp.
 Arguments put_user {H} hash empty_hash s n pw pr fp.
 Arguments del_user {H} s n fp.
 Arguments get_user {H} empty_hash s n fp.
-Arguments list_users {H} s fp.
+Arguments list_keys {H} s cl fp.
 Arguments put_service {H} s id md fp.
 Arguments del_service {H} s id fp.
 Arguments put_shortcut {H} s n sp fp.
